@@ -583,6 +583,21 @@ func check(id, tier string) int {
 	if len(bo.fatal) > 0 {
 		sort.Ints(bo.fatal)
 		v := fatalViolation(bin, dir, id, tier, seed, bo.fatal[0], knownPath, workerEnv)
+		for attempt := 1; v == nil && !det.ok && attempt < 8; attempt++ {
+			// nondeterministic code under test: a crash that depends on its own
+			// scheduling is tried a few more times
+			v = fatalViolation(bin, dir, id, tier, seed, bo.fatal[0], knownPath, workerEnv)
+		}
+		if v == nil {
+			// with the runs that preceded it in the same worker process
+			per := (total + nproc - 1) / nproc
+			for attempt := 0; v == nil && attempt < 3; attempt++ {
+				v = fatalViolationFrom(bin, dir, id, tier, seed, (bo.fatal[0]/per)*per, bo.fatal[0], knownPath, workerEnv)
+			}
+			if v != nil {
+				v.Detail = fmt.Sprintf("(needs the runs %d..%d executed before it in the same process) ", (bo.fatal[0]/per)*per, bo.fatal[0]-1) + v.Detail
+			}
+		}
 		if v == nil {
 			os.RemoveAll(dir)
 			fmt.Fprintf(os.Stderr, "verif: a worker died of a runtime fatal error in run %d but the run alone does not (no verdict)\n", bo.fatal[0])
@@ -602,15 +617,17 @@ func check(id, tier string) int {
 	}
 	if len(bo.hung) > 0 {
 		sort.Ints(bo.hung)
-		v := hangViolation(bin, dir, id, tier, seed, bo.hung[0], knownPath)
+		v := hangViolation(bin, dir, id, tier, seed, bo.hung[0], knownPath, workerEnv)
 		if v == nil {
 			os.RemoveAll(dir)
 			fmt.Fprintf(os.Stderr, "verif: watchdog tripped in run %d but the hang did not reproduce in isolation (no verdict)\n", bo.hung[0])
 			os.Exit(2)
 		}
-		if id != "C06" && id != "C20" {
+		if id != "C06" && id != "C20" && id != "C18" {
 			// (C20: a signing call that never returns after a seam failure has
-			// not "returned that error")
+			// not "returned that error"; C18: concurrent calls that wait for
+			// each other for ever are not "safe to run concurrently" - under the
+			// serialising scheduler a deadlock replays like any other schedule)
 			os.RemoveAll(dir)
 			fmt.Fprintf(os.Stderr, "verif: run %d hangs; hangs are property C06's business, no verdict for %s\n", bo.hung[0], id)
 			os.Exit(2)
@@ -636,7 +653,14 @@ func check(id, tier string) int {
 		os.WriteFile(violationPath, b, 0o644)
 		exit = 1
 	} else if agg.violation != nil {
-		path, ok := minimiseAndConfirm(bin, dir, agg.violation, knownPath, p.NoMinimise, workerEnv)
+		path, ok := minimiseAndConfirm(bin, dir, agg.violation, knownPath, p.NoMinimise || !det.ok, workerEnv)
+		for attempt := 1; !ok && !det.ok && attempt < 8; attempt++ {
+			// the code under test has become nondeterministic (the
+			// determinism self-test failed): every execution is still a real
+			// execution judged by the same oracle, so the tape is tried a few
+			// more times before the violation is given up as not replayable
+			path, ok = minimiseAndConfirm(bin, dir, agg.violation, knownPath, true, workerEnv)
+		}
 		if !ok {
 			// The run alone does not fail.  Before calling that a harness
 			// problem, see whether it fails again when the runs that preceded
@@ -753,9 +777,17 @@ func determinism(bin, dir, id, tier string, seed uint64, knownPath string, n int
 // fatalViolation re-executes one run alone; if the process dies again of a Go
 // runtime fatal error with go-cose frames on the stack, that is the violation.
 func fatalViolation(bin, dir, id, tier string, seed uint64, run int, knownPath string, env []string) *replayFile {
+	return fatalViolationFrom(bin, dir, id, tier, seed, run, run, knownPath, env)
+}
+
+// fatalViolationFrom executes the runs from..run in one process (from == run:
+// the run alone).  A crash that needs what earlier runs of the same process
+// left behind (a goroutine the library started and did not wait for) shows
+// only with its history.
+func fatalViolationFrom(bin, dir, id, tier string, seed uint64, from, run int, knownPath string, env []string) *replayFile {
 	out := filepath.Join(dir, "fatal-check.json")
 	cmd := exec.Command(bin, "run", "-prop", id, "-tier", tier, "-seed", strconv.FormatUint(seed, 10),
-		"-start", strconv.Itoa(run), "-count", "1", "-known", knownPath, "-out", out)
+		"-start", strconv.Itoa(from), "-count", strconv.Itoa(run-from+1), "-known", knownPath, "-out", out)
 	cmd.Env = append(os.Environ(), env...)
 	var stderr strings.Builder
 	cmd.Stderr = &stderr
@@ -801,11 +833,12 @@ func libraryGoroutinePanic(msg string) bool {
 	return i >= 0 && strings.Contains(msg[i:], "created by github.com/veraison/go-cose.")
 }
 
-func hangViolation(bin, dir, id, tier string, seed uint64, run int, knownPath string) *replayFile {
+func hangViolation(bin, dir, id, tier string, seed uint64, run int, knownPath string, env []string) *replayFile {
 	// replay the single run in isolation with a shorter watchdog
 	out := filepath.Join(dir, "hang-check.json")
 	cmd := exec.Command(bin, "run", "-prop", id, "-tier", tier, "-seed", strconv.FormatUint(seed, 10),
 		"-start", strconv.Itoa(run), "-count", "1", "-known", knownPath, "-out", out, "-hang", "30s")
+	cmd.Env = append(os.Environ(), env...) // (the same environment as the batch: GOMAXPROCS=1 decides some hangs)
 	err := cmd.Run()
 	if err == nil {
 		return nil
